@@ -23,8 +23,10 @@ ScalarCat == << "0", "-0", "12", "-3.25", "0.10", "1.50", "true", "false", "null
                 "3.141592653589793238462643383279", "-0.0", "0.0", "1.0", "100", "-1", "1.7976931348623157",
                 \* 41..: strings made of escapes only, a long string
                 "\"\\\\\"", "\"\\\\\\\\\"", "\"\\\"\"", "\"\\/\"", "\"\\u005c\"",
-                "\"Lorem ipsum dolor sit amet, consectetur adipiscing elit, sed do eiusmod tempor incididunt ut labore et dolore magna aliqua\"" >>
-KeyCat    == << "\"a\"", "\"b\"", "\"\"", "\"a\\\"b\"", "\"a\\\\b\"", "\"a\\nb\"", "\"k\\u00e9\"", "\"<NONASCII-2>\"", "\"a b\"", "\"@k\"", "\"a/b\"", "\"k\\u001fz\"", "\"\\u0001\\b\\f\"" >>
+                "\"Lorem ipsum dolor sit amet, consectetur adipiscing elit, sed do eiusmod tempor incididunt ut labore et dolore magna aliqua\"",
+                \* 47..: U+007F (DEL) is not a control character for RFC 8259: it may stand unescaped (placeholder <DEL>)
+                "\"a<DEL>b\"", "\"<DEL>\"", "\"\\u007f\"" >>
+KeyCat    == << "\"a\"", "\"b\"", "\"\"", "\"a\\\"b\"", "\"a\\\\b\"", "\"a\\nb\"", "\"k\\u00e9\"", "\"<NONASCII-2>\"", "\"a b\"", "\"@k\"", "\"a/b\"", "\"k\\u001fz\"", "\"\\u0001\\b\\f\"", "\"k<DEL>\"" >>
 
 VARIABLES stk,     \* open containers: records [k |-> "o"|"a", n |-> members so far, used |-> keys used]
           out,     \* tokens emitted: "{" "}" "[" "]" <<"key", i>> <<"scalar", i>>
